@@ -204,7 +204,7 @@ def scenario_for(alpha_kind, shape, scale_axis=None, bounds_po2=False, eps=None)
   return scenario
 
 
-def linear_scenario(shape, scale_axis=None, alpha="auto"):
+def linear_scenario(shape, scale_axis=None, alpha="auto", kn=1):
   """quantized_linear(alpha='auto', symmetric, signed): output = quantization_scale * integer code with |code| <= 2^n - 1,
   quantization_scale = max(2*max_G|x| / (2*(2^n - 1)), eps) > 0 over the expected group; group-maximal elements unchanged
   when the scale is above the epsilon floor."""
@@ -214,15 +214,15 @@ def linear_scenario(shape, scale_axis=None, alpha="auto"):
     bits, integer = z3.Int("bits"), z3.Int("integer")
     s.vars["bits"], s.vars["integer"] = bits, integer
     ip.assume(z3.And(bits >= 2, integer >= 0))
-    n = bits - 1
+    n = bits - kn
     kw = {"alpha": alpha}
     if scale_axis is not None:
       kw["scale_axis"] = scale_axis
-    q = ip.call(Q.qcls(ip, "quantized_linear"), [SNum(bits), SNum(integer), 1, 1], kw)
+    q = ip.call(Q.qcls(ip, "quantized_linear"), [SNum(bits), SNum(integer), 1 if kn else 0, kn], kw)
     x = Q.tensor("x", shape=shape)
     xe = x.e
     s.vars["x"] = xe
-    s.replay = {"class": "quantized_linear", "kwargs": {"alpha": alpha, "scale_axis": scale_axis}, "shape": list(shape),
+    s.replay = {"class": "quantized_linear", "kwargs": {"alpha": alpha, "scale_axis": scale_axis, "keep_negative": kn}, "shape": list(shape),
                 "bounds_po2": False, "frozen": False}
     if len(shape) > 1:
       nk = {"alpha": alpha}
@@ -260,11 +260,18 @@ def linear_scenario(shape, scale_axis=None, alpha="auto"):
       return s
     m = gmax[0]
     ax = z3.If(xe >= 0, xe, -xe)
-    raw = (m * 2) / (2 * top)
+    # what the maximum is taken of: magnitudes for a signed format, the values themselves for an unsigned one (a large
+    # negative entry, which the unsigned format maps to 0 anyway, must not coarsen the scale)
+    elems = [e for kind, e, g, k in ip.aggs if kind == "K.max"]
+    s.claim("max_taken_of", elems[0] == (ax if kn else xe))
+    if kn:
+      raw = (m * 2) / (2 * top)
+    else:
+      raw = m / top
     s.claim("scale_formula", qs == z3.If(raw >= EPS, raw, EPS))
     # the emitted value lies within the declared code range times the scale (integrality of ret / scale is not claimed here)
-    s.claim("code_range", z3.And(ret <= top * qs, ret >= -top * qs))
-    s.claim("max_to_top", z3.Implies(z3.And(raw >= EPS, ax == m), ret == xe))
+    s.claim("code_range", z3.And(ret <= top * qs, ret >= (-top * qs if kn else 0)))
+    s.claim("max_to_top", z3.Implies(z3.And(raw >= EPS, (ax if kn else xe) == m), ret == xe))
     return s
   return scenario
 
@@ -299,6 +306,8 @@ def cases(tier):
   for shape in ((5,), (3, 4), (2, 2, 3, 4)):
     out.append(Case(PROP, TL, "alpha-auto_rank%d" % len(shape), linear_scenario(shape), bounds=bounds, replay_kind="c05_linear",
                     assumptions=ASSUME, timeout_ms=20000))
+  out.append(Case(PROP, TL, "alpha-auto_unsigned_rank2", linear_scenario((3, 4), kn=0), bounds=bounds,
+                  replay_kind="c05_linear", assumptions=ASSUME, timeout_ms=20000))
   out.append(Case(PROP, TL, "alpha-auto_scale_axis0_rank2", linear_scenario((3, 4), scale_axis=0), bounds=bounds,
                   replay_kind="c05_linear", assumptions=ASSUME, timeout_ms=20000))
   for shape, sa in (((3, 4), None), ((3, 4), 0), ((2, 3, 4), 1)) + ((((5,), None),) if tier == "thorough" else ()):
